@@ -168,7 +168,7 @@ def c13_rule50_source():
     if f1 and f2:
         body += [f1, f2,
                  "int callRule50Margin(int dtm, int ply, int hmc, int& ev) {",
-                 "    TranspositionTable::TTEntry e; int m = rule50Margin(dtm, ply, hmc, e); ev = e.getEvalScore(); return m; }"]
+                 "    TranspositionTable::TTEntry e; e.setEvalScore(ev); int m = rule50Margin(dtm, ply, hmc, e); ev = e.getEvalScore(); return m; }"]
     else:   # the functions are gone / renamed: the C13 check reports the broken tie
         body += ["int callRule50Margin(int, int, int, int& ev) { ev = -99999; return -99999; }"]
     body.append("}")
@@ -891,7 +891,7 @@ NULL_THREAT_SEEDS = [
     "6k1/p4p1p/5BpQ/8/8/8/P6P/6K1 w - - 0 1",
     "1k6/1p1R4/1K6/p7/P7/8/8/8 w - - 0 1",
     "7k/5Q1p/7K/p7/P7/8/8/8 w - - 0 1",
-    "6k1/5ppp/8/8/8/8/r4PPP/1q4K1 b - - 0 1",
+    "6k1/5ppp/8/8/8/2q5/r4PPP/6K1 b - - 0 1",
 ]
 
 
@@ -920,7 +920,7 @@ def directed_requests(ctx, positions):
             reqs.append("T")
     for seed in NULL_THREAT_SEEDS:
         for fen in (seed, mirror_fen(seed)):
-            for depth in (5, 6, 7):
+            for depth in (5, 7, 10):
                 for w in ((100, 101), (-50, -49), (700, 701)):
                     reqs.append("D %s | %d %d %d %d" % (fen, w[0], w[1], 2, depth))
     return reqs
